@@ -80,6 +80,24 @@ def system(profiles: list[str], quick: int = 300, thorough: int = 6000, modes: l
     return run
 
 
+def e2e(what: str):
+    def run(tier: str, seed: int, prop: str) -> CompResult:
+        import t3_runs
+
+        return t3_runs.e2e(tier, seed, what)
+
+    return run
+
+
+def restart_default():
+    def run(tier: str, seed: int, prop: str) -> CompResult:
+        import t1_options
+
+        return t1_options.restart_default(tier, seed)
+
+    return run
+
+
 LB = ["load", "worksteal", "loadscope", "loadfile", "loadgroup"]
 
 PROPS: dict[str, dict[str, Any]] = {
@@ -105,6 +123,16 @@ PROPS: dict[str, dict[str, Any]] = {
                        system(["plain", "crash", "stop", "each", "budget"], 400, 8000)],
         "assumptions": ["theorems cover load and worksteal; the loadscope family and each are covered by the correspondence + wire monitors only",
                         "load: the first schedule() does not check shutting_down (stated as hypothesis, witness proved)"],
+    },
+    "C10": {
+        "components": [system(["budget", "lifecycle", "crash"], 450, 9000), restart_default()],
+        "assumptions": ["the exit status of the whole run is pytest's (wrap_session); the check looks at the summary line DSession records and at the published crash reports",
+                        "the theorems are about the DSession model for an arbitrary scheduler; T2 replays every simulated run's controller events through that model"],
+    },
+    "C12": {
+        "components": [system(["plain", "crash", "budget"], 300, 6000), e2e("identity")],
+        "assumptions": ["os.environ, fixtures and tmp_path_factory inside workers are observed in real runs (T3), not modelled",
+                        "execnet.Group.allocate_id is exercised (the real Group object allocates the ids in T2), not verified"],
     },
     "C13": {
         "components": [options()],
